@@ -188,7 +188,7 @@ def is_edge_adjacent(v: float, all_edges: Sequence[float]) -> bool:
 
 def shaped(rng: random.Random, values: List[float]):
     """Return the values in one of the container/shape classes h1 accepts (same flattened order)."""
-    kind = rng.choice(["list", "array", "tuple", "array2d", "f32ok", "iter", "list_none", "object"])
+    kind = rng.choice(["list", "array", "tuple", "array2d", "array2d_F", "array2d_T", "f32ok", "iter", "list_none", "object"])
     arr = np.asarray(values, dtype=float)
     if kind == "list_none":  # missing values written as None (plain python table column)
         return [None if (isinstance(v, float) and math.isnan(v)) else v for v in values], kind
@@ -200,6 +200,26 @@ def shaped(rng: random.Random, values: List[float]):
         return tuple(values), kind
     if kind == "array2d" and len(values) >= 4 and len(values) % 2 == 0:
         return arr.reshape(2, -1), kind
+    if kind in ("array2d_F", "array2d_T") and len(values) >= 4 and len(values) % 2 == 0:
+        # the same logical (2, n/2) array in another memory layout: Fortran order, or a transposed view of a (n/2, 2) buffer
+        a2 = arr.reshape(2, -1)
+        return (np.asfortranarray(a2) if kind == "array2d_F" else np.ascontiguousarray(a2.T).T), kind
     if kind == "iter":
         return iter(list(values)), kind
     return arr, "array"
+
+
+def touch_binning(rng: random.Random, binning, p: float = 0.5) -> bool:
+    """Read some of the public representations / predicates of a binning object before it is used (again).
+    Reading never changes what the object means: results computed afterwards must be the same as on a fresh object
+    (caches filled by a tolerant predicate or an edge representation must not leak into exact decisions)."""
+    if binning is None or rng.random() >= p:
+        return False
+    for name in rng.sample(["numpy_bins", "bins", "is_consecutive", "is_regular", "bin_count", "first_edge", "last_edge", "numpy_bins_with_mask", "is_adaptive"], rng.randint(1, 5)):
+        try:
+            v = getattr(binning, name)
+            if callable(v):
+                v()
+        except Exception:
+            pass
+    return True
